@@ -12,6 +12,7 @@ package main
 // implementation's own behaviour.
 
 import (
+	"bytes"
 	"encoding/binary"
 	"fmt"
 	"math/rand"
@@ -62,15 +63,47 @@ func c13meta() object.MetaObject {
 
 var c13sigs = []uint32{200, 106, 201, 107, 300}
 
-// c13payload: the event payload for emission number p of signal sig.
+// c13sizes: payload size classes.  The class of emission number p is p>>24 (class 0 = the 4 bytes of p alone),
+// so that readers can tell from the first four bytes of a payload what the whole of it must be.
+var c13sizes = []int{4, 1000, 4095, 4096, 4097, 8195, 32768, 65535, 65536, 100000, 262144, 400000}
+
+func c13size(p uint32) int {
+	if k := int(p >> 24); k < len(c13sizes) {
+		return c13sizes[k]
+	}
+	return 4
+}
+
+// c13big: emission number n with a payload of size class k.
+func c13big(k int, n uint32) uint32 { return uint32(k%len(c13sizes))<<24 | n }
+
+// c13fill: n bytes that depend on p and on their position (a shifted or spliced copy differs).
+func c13fill(p uint32, n int) []byte {
+	b := make([]byte, n)
+	for i := range b {
+		b[i] = 'a' + byte((uint32(i)*2654435761>>24+uint32(i>>8)+p)%26)
+	}
+	return b
+}
+
+// c13name: the string of the (Is) payload of emission p.
+func c13name(p uint32) string {
+	name := fmt.Sprintf("e%d", p)
+	if n := c13size(p) - 8 - len(name); n > 0 {
+		name += string(c13fill(p, n))
+	}
+	return name
+}
+
+// c13payload: the event payload for emission number p of signal sig: c13size(p) bytes that start with p.
 func c13payload(sig, p uint32) []byte {
 	b := c13le(p)
 	if sig == 106 || sig == 107 { // (Is): uint32, string
-		name := fmt.Sprintf("e%d", p)
+		name := c13name(p)
 		b = append(b, c13le(uint32(len(name)))...)
-		b = append(b, name...)
+		return append(b, name...)
 	}
-	return b
+	return append(b, c13fill(p, c13size(p)-4)...)
 }
 
 type c13sub struct {
@@ -80,6 +113,7 @@ type c13sub struct {
 	h         int
 	mu        sync.Mutex
 	got       []uint32
+	corrupt   []string // per payload read: "" or in what it differs from what was emitted under that number
 	closed    bool
 	cancel    func()
 	err       error
@@ -146,6 +180,7 @@ type c13world struct {
 	bad      []string // harness-level surprises (an expected effect did not happen)
 	mode     int      // c13mode at creation
 	mayBlock bool     // a SubscribeID that neither returns nor sends is waiting for another one's remote call (repaired code)
+	split    []string // frames that went out between two Write calls of another frame
 }
 
 // c13serialised: SubscribeID / cancel wait for a remote call of the same client that is in flight
@@ -225,7 +260,8 @@ func (w *c13world) drive() {
 		c.c.Up.Pause()
 		c.c.Down.Pause()
 		sid := w.sid
-		c.c.Down.BlockIf = func(f rig.Frame) bool { return f.Hdr.Service == sid }
+		c.c.Down.BlockIf = func(f rig.Frame) bool { return f.Head && f.Hdr.Service == sid }
+		c.c.Down.BlockFrag = true // a frame written with several Write calls: the driver decides what goes between them
 	}
 }
 
@@ -244,6 +280,12 @@ func (w *c13world) surprise(format string, a ...interface{}) {
 	w.bad = append(w.bad, fmt.Sprintf(format, a...))
 }
 
+func c13min(a, b int) int {
+	if a < b {
+		return a
+	}
+	return b
+}
 func c13le(p uint32) []byte { b := make([]byte, 4); binary.LittleEndian.PutUint32(b, p); return b }
 func c13val(b []byte) uint32 {
 	if len(b) < 4 {
@@ -271,10 +313,17 @@ func (w *c13world) startSub(c int, sig uint32, h int) *c13sub {
 	cl := w.clients[c]
 	before := len(cl.c.Up.Frames())
 	rand.Seed(int64(1000 + h))
-	record := func(v uint32) {
+	record := func(v uint32, bad string) {
 		s.mu.Lock()
 		s.got = append(s.got, v)
+		s.corrupt = append(s.corrupt, bad)
 		s.mu.Unlock()
+	}
+	named := func(id uint32, name string) string {
+		if want := c13name(id); name != want {
+			return fmt.Sprintf("event %d came with a string of %d bytes that differs from the %d bytes emitted", id, len(name), len(want))
+		}
+		return ""
 	}
 	go func() {
 		var cancel func()
@@ -300,23 +349,19 @@ func (w *c13world) startSub(c int, sig uint32, h int) *c13sub {
 		switch sig {
 		case 106:
 			for e := range added {
-				if e.Name != fmt.Sprintf("e%d", e.ServiceID) {
-					record(0xdead0000 | e.ServiceID&0xffff)
-				} else {
-					record(e.ServiceID)
-				}
+				record(e.ServiceID, named(e.ServiceID, e.Name))
 			}
 		case 107:
 			for e := range removed {
-				if e.Name != fmt.Sprintf("e%d", e.ServiceID) {
-					record(0xdead0000 | e.ServiceID&0xffff)
-				} else {
-					record(e.ServiceID)
-				}
+				record(e.ServiceID, named(e.ServiceID, e.Name))
 			}
 		default:
 			for p := range raw {
-				record(c13val(p))
+				bad := ""
+				if want := c13payload(sig, c13val(p)); !bytes.Equal(p, want) {
+					bad = fmt.Sprintf("read a payload of %d bytes starting with %x, which is not the %d bytes emitted as event %d", len(p), p[:c13min(len(p), 12)], len(want), c13val(p))
+				}
+				record(c13val(p), bad)
 			}
 		}
 		s.mu.Lock()
@@ -444,7 +489,7 @@ func (w *c13world) mbox(c int) {
 	w.lab("LMbox %d", c)
 	answered := w.n.WaitFor(c13Block, func() bool {
 		for _, b := range cl.c.Down.Blocked() {
-			if b.Hdr.ID == f.Hdr.ID && (b.Hdr.Type == net.Reply || b.Hdr.Type == net.Error) {
+			if b.Head && b.Hdr.ID == f.Hdr.ID && (b.Hdr.Type == net.Reply || b.Hdr.Type == net.Error) {
 				return true
 			}
 		}
@@ -459,12 +504,110 @@ func (w *c13world) mbox(c int) {
 func (w *c13world) pendingReply() (int, bool) {
 	for i, cl := range w.clients {
 		for _, b := range cl.c.Down.Blocked() {
-			if b.Hdr.Type == net.Reply || b.Hdr.Type == net.Error {
+			if b.Head && (b.Hdr.Type == net.Reply || b.Hdr.Type == net.Error) {
 				return i, true
 			}
 		}
 	}
 	return 0, false
+}
+
+// ---- frames written with more than one Write call ----
+//
+// Message.Write of the pinned tree hands a frame to the stream with one Write call, and nothing but
+// that keeps the frames of two goroutines that send on one connection (the emitter and the object's
+// mailbox goroutine here) apart.  The driver does not assume it: a Write call whose buffer does not
+// start with a header is the rest of a frame; it blocks like every other write of the object, and
+// when another goroutine has a frame waiting for the same connection that frame goes first (the
+// scheduler is free to do that).  What the client then makes of the stream is observed as always.
+
+// blockedRest: a writer of connection c is blocked with the rest of a frame whose beginning has been written.
+func (w *c13world) blockedRest() (int, bool) {
+	for i, cl := range w.clients {
+		for _, b := range cl.c.Down.Blocked() {
+			if !b.Head {
+				return i, true
+			}
+		}
+	}
+	return 0, false
+}
+
+func (w *c13world) restOn(c int) bool {
+	for _, b := range w.clients[c].c.Down.Blocked() {
+		if !b.Head {
+			return true
+		}
+	}
+	return false
+}
+
+func (w *c13world) headOn(c int) bool {
+	for _, b := range w.clients[c].c.Down.Blocked() {
+		if b.Head {
+			return true
+		}
+	}
+	return false
+}
+
+// released: a blocked writer of connection c has just been let go (nw, nf: Write calls and frames of the
+// link before that).  Waits until its Write call is through and either the frame is complete or the
+// writer is back with the rest of it; the rest is let through at once unless a frame of another
+// goroutine is waiting for this connection (then it stays blocked: true).
+func (w *c13world) released(c, nw, nf int, what string) bool {
+	l := w.clients[c].c.Down
+	if !w.n.WaitFor(c13Wait, func() bool { return l.Writes() > nw || l.Closed() }) {
+		w.surprise("%s: the released write on connection %d did not go through", what, c)
+		return false
+	}
+	for i := 0; i < 64; i++ {
+		w.n.WaitFor(c13Block, func() bool { return len(l.Frames()) > nf || w.restOn(c) || l.Desync() || l.Closed() })
+		if !w.restOn(c) {
+			return false
+		}
+		if w.headOn(c) {
+			return true
+		}
+		l.Release(func(f rig.Frame) bool { return !f.Head })
+	}
+	return false
+}
+
+// interleaved: a frame goes out on connection c while the rest of another frame is still to be written.
+func (w *c13world) noteSplit(c int, f rig.Frame) {
+	if w.restOn(c) {
+		w.split = append(w.split, fmt.Sprintf("on connection %d the object wrote %v between two Write calls of one frame of another goroutine", c, f))
+	}
+}
+
+// restSend: the rest of a frame that was held back goes out.
+func (w *c13world) restSend() {
+	c, ok := w.blockedRest()
+	if !ok {
+		w.surprise("restSend: nothing is held")
+		return
+	}
+	l := w.clients[c].c.Down
+	nw, nf := l.Writes(), len(l.Frames())
+	l.Release(func(f rig.Frame) bool { return !f.Head })
+	w.released(c, nw, nf, "restSend")
+	w.settle()
+}
+
+// settle: where the emitter is after a write that may have been its own went through.
+func (w *c13world) settle() {
+	if !w.emitBusy {
+		return
+	}
+	w.n.WaitFor(c13Block, func() bool {
+		_, b := w.blockedEvent()
+		_, r := w.blockedRest()
+		return b || r || w.emitReturned()
+	})
+	_, b := w.blockedEvent()
+	_, r := w.blockedRest()
+	w.emitBusy = b || r
 }
 
 // reply: the object's answer is written.  Label LReply.
@@ -475,18 +618,23 @@ func (w *c13world) reply() {
 		return
 	}
 	cl := w.clients[c]
-	before := len(cl.c.Down.Frames())
-	cl.c.Down.Release(func(f rig.Frame) bool { return f.Hdr.Type == net.Reply || f.Hdr.Type == net.Error })
-	if !w.n.WaitFor(c13Wait, func() bool { return len(cl.c.Down.Frames()) > before }) {
-		w.surprise("reply: released answer was not written")
+	nw, nf := cl.c.Down.Writes(), len(cl.c.Down.Frames())
+	for _, b := range cl.c.Down.Blocked() {
+		if b.Head && (b.Hdr.Type == net.Reply || b.Hdr.Type == net.Error) {
+			w.noteSplit(c, b)
+			break
+		}
 	}
+	cl.c.Down.Release(func(f rig.Frame) bool { return f.Head && (f.Hdr.Type == net.Reply || f.Hdr.Type == net.Error) })
+	w.released(c, nw, nf, "reply")
 	w.lab("LReply")
+	w.settle()
 }
 
 func (w *c13world) blockedEvent() (int, bool) {
 	for i, cl := range w.clients {
 		for _, b := range cl.c.Down.Blocked() {
-			if b.Hdr.Type == net.Event {
+			if b.Head && b.Hdr.Type == net.Event {
 				return i, true
 			}
 		}
@@ -532,15 +680,33 @@ func (w *c13world) emitSnap(sig uint32, p uint32) {
 func (w *c13world) emitSend() {
 	c, ok := w.blockedEvent()
 	if !ok {
+		if _, rest := w.blockedRest(); rest { // the emitter is in the middle of a frame
+			w.restSend()
+			return
+		}
 		w.surprise("emitSend: the emitter is not blocked")
 		return
 	}
 	cl := w.clients[c]
-	before := len(cl.c.Down.Frames())
-	cl.c.Down.Release(func(f rig.Frame) bool { return f.Hdr.Type == net.Event })
-	w.n.WaitFor(c13Wait, func() bool { return len(cl.c.Down.Frames()) > before })
+	nw, nf := cl.c.Down.Writes(), len(cl.c.Down.Frames())
+	for _, b := range cl.c.Down.Blocked() {
+		if b.Head && b.Hdr.Type == net.Event {
+			w.noteSplit(c, b)
+			break
+		}
+	}
+	cl.c.Down.Release(func(f rig.Frame) bool { return f.Head && f.Hdr.Type == net.Event })
+	held := w.released(c, nw, nf, "emitSend")
+	if len(w.emits) == 0 {
+		w.surprise("the object wrote an Event frame to connection %d although the schedule has not emitted anything yet", c)
+		return
+	}
 	w.emits[len(w.emits)-1].written[c] = true
 	w.lab("LEmitSend")
+	if held {
+		w.emitBusy = true
+		return
+	}
 	w.n.WaitFor(c13Wait, func() bool { _, b := w.blockedEvent(); return b || w.emitReturned() })
 	_, b := w.blockedEvent()
 	w.emitBusy = b
@@ -555,6 +721,11 @@ func (w *c13world) cliRecv(c int) {
 	f, ok := cl.c.Down.ReleaseOne()
 	if !ok {
 		w.surprise("cliRecv(%d): nothing to release", c)
+		return
+	}
+	if !f.Head { // bytes that do not start with a header: the client gives the connection up
+		w.n.WaitFor(c13Block, cl.c.Down.Closed)
+		w.split = append(w.split, fmt.Sprintf("the client of connection %d was handed %v", c, f))
 		return
 	}
 	if !w.n.WaitFor(c13Wait, func() bool { return cl.c.Down.Read() > before }) {
@@ -680,6 +851,13 @@ func (w *c13world) finishCancel(s *c13sub) {
 // LSendUnreg (unregisterEvent frame seen) or the close of the channel.
 func (w *c13world) startCancel(s *c13sub) {
 	cl := w.clients[s.conn]
+	s.mu.Lock()
+	cancel := s.cancel
+	s.mu.Unlock()
+	if cancel == nil {
+		w.surprise("cancel of subscriber %d: its SubscribeID has not returned a cancel function", s.idx)
+		return
+	}
 	for _, o := range w.subs {
 		if o != s && o.conn == s.conn && o.sig == s.sig && (o.waitReg || o.waitUnreg) {
 			w.trig["sub_unserialised"] = true
@@ -688,7 +866,7 @@ func (w *c13world) startCancel(s *c13sub) {
 	}
 	s.cancelled, s.cancelPos = true, w.pos()
 	before := len(cl.c.Up.Frames())
-	go func() { s.cancel(); close(s.cdone) }()
+	go func() { cancel(); close(s.cdone) }()
 	w.lab("LCancel %d", s.idx)
 	isDone := func() bool {
 		select {
@@ -726,6 +904,10 @@ func (w *c13world) drain() {
 		}
 		if _, ok := w.blockedEvent(); ok {
 			w.emitSend()
+			continue
+		}
+		if _, ok := w.blockedRest(); ok {
+			w.restSend()
 			continue
 		}
 		moved := false
@@ -824,6 +1006,9 @@ func (w *c13world) oracles() []c13verdict {
 	if w.mode != 0 {
 		hist = "object " + c13modeName(w.mode) + "; " + hist
 	}
+	if len(w.split) > 0 {
+		hist += "; note: " + strings.Join(w.split, "; ")
+	}
 	emIndex := map[uint32]int{}
 	for i, e := range w.emits {
 		emIndex[e.p] = i
@@ -831,7 +1016,18 @@ func (w *c13world) oracles() []c13verdict {
 	for _, s := range w.subs {
 		s.mu.Lock()
 		got := append([]uint32(nil), s.got...)
+		corrupt := append([]string(nil), s.corrupt...)
 		s.mu.Unlock()
+		// with the emitted payload: every byte of it
+		for i, b := range corrupt {
+			if _, emitted := emIndex[got[i]]; emitted && b != "" {
+				v = append(v, c13verdict{"payload-corrupt", fmt.Sprintf("subscriber %d (connection %d, signal %d): %s; schedule: %s", s.idx, s.conn, s.sig, b, hist), ""})
+			}
+		}
+		// the channel of a subscriber that has not cancelled stays open (the connection stays up)
+		if s.acked && !s.cancelled && s.isClosed() {
+			v = append(v, c13verdict{"closed-while-subscribed", fmt.Sprintf("subscriber %d (connection %d, signal %d): its channel was closed although it never cancelled; schedule: %s", s.idx, s.conn, s.sig, hist), ""})
+		}
 		// exactly once, in emission order, only its own signal
 		last := -1
 		for _, p := range got {
@@ -1159,6 +1355,54 @@ func c13scripts() []func() (*c13world, string) {
 			w.drain()
 			return w, "three-connections-property"
 		},
+		func() (*c13world, string) { // events of every size class written while the mailbox goroutine writes an answer to the same connection
+			w := c13new(2)
+			w.drive()
+			w.startSub(0, 200, 1)
+			w.drain()
+			w.startSub(1, 200, 2)
+			w.drain()
+			var other *c13sub
+			for k := 1; k < len(c13sizes) && len(w.bad) == 0; k++ {
+				if other == nil { // the request whose answer competes with the event: a registration or its removal
+					other = w.startSub(0, 201, 10+k)
+				} else {
+					w.startCancel(other)
+					other = nil
+				}
+				w.mbox(0)                                 // the answer is blocked in its Write ...
+				w.emitSnap(200, c13big(k, uint32(100+k))) // ... and so is the event for the same connection
+				if k%3 != 0 {
+					w.emitSend() // the event (or whatever its first Write call carries) goes first
+				} else {
+					w.reply()
+				}
+				w.drain() // the answer, the rest, connection 1, dispatch, readers
+			}
+			return w, "large-events-while-answering"
+		},
+		func() (*c13world, string) { // the same through the generated proxy, a property and an answer per event on one connection
+			w := c13new(1)
+			w.drive()
+			w.startSub(0, 106, 1)
+			w.drain()
+			w.startSub(0, 300, 2)
+			w.drain()
+			var other *c13sub
+			for k := len(c13sizes) - 1; k >= 1 && len(w.bad) == 0; k-- {
+				if other == nil {
+					other = w.startSub(0, 107, 10+k)
+				} else {
+					w.startCancel(other)
+					other = nil
+				}
+				w.mbox(0)
+				w.emitSnap([]uint32{106, 300}[k%2], c13big(k, uint32(200+k)))
+				w.emitSend()
+				w.drain()
+			}
+			return w, "large-events-generated-proxy"
+		},
 	}
 }
 
@@ -1172,6 +1416,14 @@ func (w *c13world) liveSubs() []*c13sub {
 		}
 	}
 	return l
+}
+
+// c13sized: one emission in four carries a payload of a random size class (1000 bytes to 400000 bytes).
+func c13sized(rng *hx.Rng, n uint32) uint32 {
+	if rng.Intn(4) != 0 {
+		return n
+	}
+	return c13big(1+rng.Intn(len(c13sizes)-1), n)
 }
 
 // sequential: every operation runs to completion before the next one starts.
@@ -1190,7 +1442,7 @@ func c13sequential(rng *hx.Rng, nops, nconn, nsig, maxsubs int) *c13world {
 			w.startCancel(live[rng.Intn(len(live))])
 		default:
 			payload++
-			w.emitSnap(c13sigs[rng.Intn(nsig)], payload)
+			w.emitSnap(c13sigs[rng.Intn(nsig)], c13sized(rng, payload))
 		}
 		w.drain()
 		if len(w.bad) > 0 {
@@ -1227,7 +1479,7 @@ func c13interleaved(rng *hx.Rng, nsteps int) *c13world {
 			}
 		}
 		if !w.emitBusy {
-			add(4, func() { payload++; w.emitSnap(c13sigs[rng.Intn(2)], payload) })
+			add(4, func() { payload++; w.emitSnap(c13sigs[rng.Intn(2)], c13sized(rng, payload)) })
 		} else {
 			add(4, w.emitSend)
 		}
@@ -1378,4 +1630,6 @@ func runC13(res *hx.Result, rng *hx.Rng, tier string, outdir string) {
 		rec(nil)
 	}
 	cf.Flush()
+	// registrations with caller-chosen ids (c13raw.go)
+	c13runRaw(res, rng, tier, outdir, cfg)
 }
